@@ -599,7 +599,9 @@ PATHS = ['fmt', 'os', 'strings', 'github.com/pointlander/peg/tree', 'a/b-c/d.v2'
 ALIASES = ['t', 'T2', '_', 'x_y']
 CODE_BITS = [' x ', 'p.n++', ' fmt.Println("hi") ', '{}', '{ {a} {b{c}} }', '\n\tif a {\n\t b()\n }\n', ' s := "str\\"ing" ',
              ' // c\n', "'x'", '<- / [', ' return `raw` ', '', ' ', ' \u2190 汉 ', '\t', ' a[i] = !b && c ', ' /* c */ ',
-             ' type t struct{a int} ', '#', ' x := map[string]int{"a": 1} ']
+             ' type t struct{a int} ', '#', ' x := map[string]int{"a": 1} ',
+             # braces inside Go strings, runes and comments do not count (fix of F-C10-5)
+             ' s := "}" ', " r := '{' ", ' /* } */ ', ' // {\n', ' x := `}{` ', ' q := "\\"}" + "{" ']
 
 
 def gen_code(rng):
@@ -937,8 +939,9 @@ def probes():
     P.append(('grouped-import-one-line', 'package p\nimport ("fmt")\ntype T Peg {}\nr <- a\n', None, 'import ("fmt") on one line'))
     P.append(('import-path-tilde', 'package p\nimport "a/~b"\ntype T Peg {}\nr <- a\n', None, 'import path with a character outside [0-9a-zA-Z_/.-]'))
     P.append(('action-brace-in-string', rule('{ s := "}" }'), [N('Action', ' s := "}" ')], 'a brace inside a Go string inside an action'))
-    P.append(('action-brace-in-string-accepted', rule("{ a(\"}\") } 'x' { b(\"{\") }"), None, 'braces inside Go strings: silently a different rule?'))
-    P.append(('action-brace-in-comment', rule('{ // }\n }'), None, 'a brace inside a Go comment inside an action'))
+    P.append(('action-brace-in-string-accepted', rule("{ a(\"}\") } 'x' { b(\"{\") }"),
+              [N('Sequence', '', [N('Action', ' a("}") '), CH(120), N('Action', ' b("{") ')])], 'braces inside Go strings'))
+    P.append(('action-brace-in-comment', rule('{ // }\n }'), [N('Action', ' // }\n ')], 'a brace inside a Go comment inside an action'))
     # [a-]: peg(1) and regular expressions take a trailing dash literally; this project's documentation says nothing about it
     # (the dash has the escape \\-), so there is no documented meaning: rejecting it is as good as accepting it (no expectation)
     P.append(('class-trailing-dash', rule('[a-]'), None, '[a-]: undocumented; real must not crash and must agree with the model'))
